@@ -3,6 +3,7 @@
 package verifmodel
 
 import (
+	"runtime"
 	"net/http"
 
 	"github.com/internetarchive/Zeno/pkg/models"
@@ -35,6 +36,7 @@ func siteOf(u *models.URL) *Page {
 }
 
 func SiteClientDo(c *http.Client, req *http.Request) (*http.Response, error) {
+	runtime.Gosched() // network I/O: every interleaving with the other goroutines is possible here
 	key := req.URL.String()
 	p := Site[key]
 	n := SiteAttempts[key]
